@@ -201,6 +201,9 @@ func init() {
 			if p.IsNil() {
 				return nil, RVal{}, true
 			}
+			if p.NilIf != nil {
+				panic(unsupported("reflect Elem of a pointer whose nil-ness is symbolic"))
+			}
 			et := v.T.Underlying().(*types.Pointer).Elem()
 			pp := p
 			return nil, RVal{T: et, Ref: &pp, Valid: true, RO: v.RO}, true
@@ -354,7 +357,7 @@ func init() {
 		}
 		switch x := e.rvGet(st, v).(type) {
 		case PtrV:
-			return retExit(st, e.tc.Bool(x.IsNil()))
+			return retExit(st, e.ptrNilTerm(x))
 		case LocV:
 			return retExit(st, e.tc.Bool(x.Kind == 0))
 		case SliceV:
